@@ -909,7 +909,6 @@ package astits
 
 //@ func isSameAsPrevious
 //@   requires p != nil && 0 <= len(ps) && (len(ps) > 0 ==> ps[len(ps) - 1] != nil)
-//@   requires len(ps) > 0 ==> 0 <= len(p.Payload) && 0 <= len(ps[len(ps) - 1].Payload)
 //@   ensures [C06,C07,C02] same: result == (len(ps) > 0 && p.Header.HasPayload && p.Header.ContinuityCounter == ps[len(ps) - 1].Header.ContinuityCounter && sameBytes(p.Payload, ps[len(ps) - 1].Payload))
 
 // bytes.Equal (assumed, per its documentation): true exactly when both slices have the same length and bytes.
@@ -926,7 +925,6 @@ package astits
 //@   modifies b.q
 //@   let n = old(len(b.q))
 //@   let last = old(b.q[len(b.q) - 1])
-//@   requires 0 <= len(p.Payload) && (len(b.q) > 0 ==> 0 <= len(b.q[len(b.q) - 1].Payload))
 //@   let dup = n > 0 && p.Header.HasPayload && p.Header.ContinuityCounter == last.Header.ContinuityCounter && sameBytes(p.Payload, last.Payload)
 //@   let discInd = p.Header.HasAdaptationField && p.AdaptationField.DiscontinuityIndicator
 //@   let gap = n > 0 && ((p.Header.HasPayload && p.Header.ContinuityCounter != (last.Header.ContinuityCounter + 1) % 16) || (!p.Header.HasPayload && p.Header.ContinuityCounter != last.Header.ContinuityCounter))
